@@ -148,3 +148,64 @@ func verif_C05_chunks() {
 	verifAssert(verifGoroutinesAlive() == 0, "C05.no-goroutine-left")
 	verifReach("C05.chunks-end")
 }
+
+// verif_C05_refused_mid: a refused BDAT command in the middle of a chunked
+// transfer (bad LAST token or too many arguments, chunk follows as RFC 3030
+// prescribes). The refused chunk is discarded; the transfer continues with the
+// following chunks: one Data call, the concatenation of the accepted chunks.
+func verif_C05_refused_mid() {
+	verifPreemptBound(0)
+	kind := verifChoice(2)
+	c1 := nondetBytesN(2)
+	bad := nondetBytesN(2)
+	c3 := nondetBytesN(2)
+	c4 := nondetBytesN(1)
+	in := []byte("EHLO c\r\nMAIL FROM:<s@v>\r\nRCPT TO:<r@v>\r\nBDAT 2\r\n")
+	in = append(in, c1...)
+	in = append(in, []string{"BDAT 2 FOO\r\n", "BDAT 2 LAST X\r\n"}[kind]...)
+	in = append(in, bad...)
+	in = append(in, "BDAT 2\r\n"...)
+	in = append(in, c3...)
+	in = append(in, "BDAT 1 LAST\r\n"...)
+	in = append(in, c4...)
+	in = append(in, "NOOP\r\n"...)
+	var gots [][]byte
+	var rerrs []error
+	be := &vbackend{}
+	be.dataFn = func(_ *vsession, r io.Reader) error {
+		b, e := verifReadAll(r, 3)
+		gots = append(gots, b)
+		rerrs = append(rerrs, e)
+		if e == io.EOF {
+			return nil
+		}
+		return e
+	}
+	s, lg := verifServer(be)
+	vc, _, err := verifServe(s, in, io.EOF)
+	reps, wf := verifParseReplies(vc.out)
+	verifObserve("c05m", kind, wf, len(reps), len(gots), lg.lines)
+	verifAssert(err == nil && wf && len(reps) == 9, "C05.mid-one-reply-per-command")
+	if !wf || len(reps) != 9 {
+		return
+	}
+	verifAssert(reps[4].code == 250 && reps[5].code == 501, "C05.mid-refusal-is-501")
+	// RFC 3030 leaves the fate of the message open after a refused chunk: the
+	// server may fail it or continue. What it must not do is present a
+	// truncated or spliced message as complete.
+	want := append(append(append([]byte{}, c1...), c3...), c4...)
+	completed := 0
+	for i, e := range rerrs {
+		if e == io.EOF {
+			completed++
+			verifAssert(string(gots[i]) == string(want), "C05.mid-complete-message-is-the-concatenation")
+		}
+	}
+	verifAssert(len(gots) == 1, "C05.mid-single-data-call")
+	if reps[7].code == 250 {
+		verifReach("C05.mid-continued")
+		verifAssert(completed == 1, "C05.mid-250-means-complete")
+	}
+	verifAssert(reps[8].code == 250, "C05.mid-command-mode-after")
+	verifAssert(verifGoroutinesAlive() == 0, "C05.mid-no-goroutine-left")
+}
